@@ -125,8 +125,10 @@ Model: one prober client popping up to `n` probes at once and failing each (`pop
 implementation's output: the component went quiet, it created no NEW mark without a probe (marks the planted state
 already had unbacked are not its doing), and its queue metrics count what was popped and what had expired. -/
 def handleRunner (initS n : String) (out : List String) : Verdict :=
-  -- `hold|<addr>|<ms>` items (another writer holding the lock for a while in real time) do not exist at the model's level
-  let initS := ",".intercalate ((initS.splitOn ",").filter fun it => !it.startsWith "hold|")
+  -- `hold|<addr>|<ms>` items (another writer holding the lock for a while in real time) do not exist at the model's level;
+  -- neither do `junk|<n>` items (queue entries of an unknown goal: popped — they count as consumed — and dropped without any effect)
+  let junk : Nat := ((initS.splitOn ",").filterMap fun it => if it.startsWith "junk|" then (it.drop 5).toNat? else none).foldl (· + ·) 0
+  let initS := ",".intercalate ((initS.splitOn ",").filter fun it => !it.startsWith "hold|" && !it.startsWith "junk|")
   match kv out "dump", kv out "met", modelRun {} (fun _ => 0) initS s!"pop|{n}|fail" (",".intercalate (List.replicate 400 "c0")) with
   | some idump, some imet, some m =>
     let idump := if idump = "-" then "" else idump
@@ -134,7 +136,7 @@ def handleRunner (initS n : String) (out : List String) : Verdict :=
     let fresh := (orphans idump).filter fun o => !before.contains o
     -- the model's prober reports `popped:<k>:<expired>` first
     let mmet := match (m.res.splitOn "+").head? with
-      | some t => (match t.splitOn ":" with | ["popped", k, e] => s!"{k}:{e}" | _ => "?")
+      | some t => (match t.splitOn ":" with | ["popped", k, e] => s!"{k.toNat?.getD 0 + junk}:{e}" | _ => "?")
       | none => "?"
     let quiet := out.contains "quiet"
     let same := m.dump == idump && mmet == imet
